@@ -64,7 +64,9 @@ class Roles:
             if any(t.callee.path == "ssri::Integrity::to_hex" for _, _, t in cs):
                 self.content_path.append(p)
             elif any(prog.callee_fn(t) is not None and prog.callee_fn(t).path in self.hash_fns
-                     and self.hash_fns[prog.callee_fn(t).path] == "sha1" for _, _, t in cs):
+                     and self.hash_fns[prog.callee_fn(t).path] == "sha1" for _, _, t in cs) or \
+                    any(t.callee.path.startswith("digest::Digest::") and _digest_kind(t.callee.self_ty) == "sha1" for _, _, t in cs):
+                # (the digest may also be computed in place: the shape of the path is judged by C17)
                 self.bucket_path.append(p)
         # bucket readers: call serde_json::from_str::<R> for a crate type R and return a collection of R
         for p, lf in fns.items():
@@ -81,9 +83,11 @@ class Roles:
         # index inserts: open a BUCKET_PATH for writing and write to it
         for p, lf in fns.items():
             cs = _calls(prog, lf)
-            opens = [t for _, _, t in cs if re.search(r"::fs::OpenOptions::open$", t.callee.path)]
+            # (any way of opening for writing, any way of writing: *how* the record is emitted is judged by C04/C05/C07,
+            #  the role only says which function emits it)
+            opens = [t for _, _, t in cs if re.search(r"::fs::(OpenOptions::open|File::create|File::create_new|write)$", t.callee.path)]
             bp = [t for _, _, t in cs if prog.callee_fn(t) is not None and prog.callee_fn(t).path in self.bucket_path]
-            wr = [t for _, _, t in cs if re.search(r"(Write|AsyncWriteExt)::(write_all|write)$", t.callee.path)]
+            wr = [t for _, _, t in cs if re.search(r"(Write|AsyncWriteExt|AsyncWrite)::(write_all|write|write_fmt|write_vectored|write_all_vectored|poll_write)$|::fs::write$", t.callee.path)]
             if opens and bp and wr:
                 self.index_inserts.append(p)
         # content close: persist
